@@ -30,7 +30,7 @@ func init() {
 		Assumptions: []string{"ref.Project implements DESIGN.md 8.4; inclusion results are compared as field sets", "fan-out over arrays of sub-documents, overlapping paths, numeric path segments are generated for the non-mutation oracle only"},
 		Batches:     func(tier string) int { return 16 },
 		Require: func(tier string) map[string]int64 {
-			return map[string]int64{"ref_asserted": 1500, "nonmutation_checked": 3000, "subdoc_relation_checked": 2000, "mix_rejected": 50, "mix_rejected_driver": 20, "driver_compared": 300}
+			return map[string]int64{"ref_asserted": 1500, "nonmutation_checked": 3000, "subdoc_relation_checked": 2000, "mix_rejected": 50, "mix_rejected_driver": 20, "upserted_results_projected": 200, "driver_compared": 300}
 		},
 		Run: runC14,
 	})
@@ -262,6 +262,24 @@ func c14Case(c *fw.Ctx, ctx context.Context, coll lungo.ICollection, d bson.D, p
 			c.Violate("project:driver-differs", "FindOneAndUpdate (return before) with projection returned another document than Project", w)
 		}
 		coll.UpdateOne(ctx, bson.D{{Key: "_id", Value: int32(1)}}, bson.D{{Key: "$unset", Value: bson.D{{Key: "zz9", Value: ""}}}})
+		// a document created by the call itself (upsert, return the new document)
+		// is projected like any other
+		if len(d) > 1 {
+			var up, raw bson.D
+			uerr := coll.FindOneAndUpdate(ctx, bson.D{{Key: "_id", Value: int32(77)}}, bson.D{{Key: "$set", Value: d[1:]}},
+				options.FindOneAndUpdate().SetUpsert(true).SetReturnDocument(options.After).SetProjection(proj)).Decode(&up)
+			coll.FindOne(ctx, bson.D{{Key: "_id", Value: int32(77)}}).Decode(&raw)
+			coll.DeleteOne(ctx, bson.D{{Key: "_id", Value: int32(77)}})
+			if uerr == nil && raw != nil {
+				c.Count("upserted_results_projected", 1)
+				rc, pc3 := gen.CloneDoc(raw), gen.CloneDoc(proj)
+				if alone, aerr := mongokit.Project(&rc, &pc3); aerr == nil && !overlapping && !ref.SameFieldSet(up, gen.CloneDoc(*alone)) {
+					w["upserted_result"] = gen.JSON(up)
+					w["projected_alone"] = gen.JSON(*alone)
+					c.Violate("project:driver-differs", "FindOneAndUpdate (upsert, return after) returned the new document without applying the projection to it", w)
+				}
+			}
+		}
 		// several documents through one Find: each result must be what projecting
 		// that document alone gives (no state may leak from one document to the next)
 		if !overlapping {
